@@ -15,7 +15,13 @@ pub type ParserType<'a, R> = Parser<Lexer<Scanner<'a, R>>>;
 
 pub struct Parser<Lexer> {
     pub(super) lexer: Lexer,
+    // Current nesting depth of the value being parsed
+    depth: usize,
 }
+
+/// Maximum nesting depth of lists, dicts and grids (the same limit `serde_json` uses).
+/// The parser is recursive, so deeper input would exhaust the stack.
+const MAX_NESTING_DEPTH: usize = 128;
 
 impl<'a, R: Read> Parser<Lexer<Scanner<'a, R>>> {
     /// Constructs a [Parser](self::Parser) for the provided [Read](std::io::Read)
@@ -23,7 +29,16 @@ impl<'a, R: Read> Parser<Lexer<Scanner<'a, R>>> {
         let mut lexer = Lexer::make(input)?;
         // Advance lexer to first token
         lexer.read()?;
-        Ok(Parser { lexer })
+        Ok(Parser { lexer, depth: 0 })
+    }
+
+    // Enter a nested list, dict or grid
+    fn enter_nested(&mut self) -> Result<(), Error> {
+        if self.depth >= MAX_NESTING_DEPTH {
+            return self.lexer.make_generic_err("Nesting too deep");
+        }
+        self.depth += 1;
+        Ok(())
     }
 
     /// Parses a Haystack [Value](crate::val::Value) form the provided [Read](std::io::Read)
@@ -33,8 +48,10 @@ impl<'a, R: Read> Parser<Lexer<Scanner<'a, R>>> {
             Some(value) => match value {
                 // Possible Grid ver
                 TokenValue::Id(_) => {
-                    let grid = parse_grid(self)?;
-                    Ok(Value::make_grid(grid))
+                    self.enter_nested()?;
+                    let grid = parse_grid(self);
+                    self.depth -= 1;
+                    Ok(Value::make_grid(grid?))
                 }
                 // Scalar Value
                 TokenValue::Value(value) => Ok(value.clone()),
@@ -42,18 +59,24 @@ impl<'a, R: Read> Parser<Lexer<Scanner<'a, R>>> {
                 TokenValue::ZincChar(char) => match char {
                     // List Start
                     b'[' => {
-                        let list = parse_list(self)?;
-                        Ok(Value::make_list(list))
+                        self.enter_nested()?;
+                        let list = parse_list(self);
+                        self.depth -= 1;
+                        Ok(Value::make_list(list?))
                     }
                     // Dict Start
                     b'{' => {
-                        let dict = parse_dict(self)?;
-                        Ok(Value::make_dict(dict))
+                        self.enter_nested()?;
+                        let dict = parse_dict(self);
+                        self.depth -= 1;
+                        Ok(Value::make_dict(dict?))
                     }
                     // Nested Grid Start
                     b'<' => {
-                        let grid = parse_grid(self)?;
-                        Ok(Value::make_grid(grid))
+                        self.enter_nested()?;
+                        let grid = parse_grid(self);
+                        self.depth -= 1;
+                        Ok(Value::make_grid(grid?))
                     }
                     _ => self.lexer.make_generic_err(&format!(
                         "Unexpected parser token '{token}'",
